@@ -592,7 +592,17 @@ func runHostCase(c *hcase, r *res.Result) (string, string, int) {
 				s.mu.Unlock()
 				switch {
 				case s == target && cnt == 0:
-					return "host:probe-lost", fmt.Sprintf("op %d: datagram to %s:%d did not reach the open socket %s:%d that covers it", i, o.IP, o.Port, s.ip, s.port), i
+					dbg := ""
+					for _, s2 := range open {
+						s2.mu.Lock()
+						for k := range s2.log {
+							if strings.HasPrefix(k, payload+"<") {
+								dbg += fmt.Sprintf(" [%s:%d got %q]", s2.ip, s2.port, k)
+							}
+						}
+						s2.mu.Unlock()
+					}
+					return "host:probe-lost", fmt.Sprintf("op %d: datagram %q to %s:%d (expected source %s) did not reach the open socket %s:%d (connected to %q) that covers it;%s open: %s", i, payload, o.IP, o.Port, from, s.ip, s.port, s.rem, dbg, descOpen(open)), i
 				case s == target && cnt > 1:
 					return "host:probe-duplicated", fmt.Sprintf("op %d: datagram to %s:%d read %d times", i, o.IP, o.Port, cnt), i
 				case s != target && cnt > 0:
